@@ -61,6 +61,7 @@ type Obl struct {
 	Status  string
 	Solver  string
 	TimeS   float64
+	Cross   []string // verdicts of the other solvers (thorough tier)
 	Model   string
 	Bounded bool
 	vc      *VC
@@ -68,6 +69,8 @@ type Obl struct {
 
 // VC accumulates the verification condition of one function under contract.
 type VC struct {
+	cross bool // thorough tier: cross-check discharged obligations with the other solvers
+	usedContracts map[string]*FuncContract // contracts relied on at call sites
 	anchorHit map[string]bool // contract key|assert/after|anchor -> matched at least one program point
 	eng       *Engine
 	U         *Universe
